@@ -10,11 +10,13 @@ Decided (structural clauses of the RFC 8439 construction, every path, all inputs
   (encrypt: cipher then MAC over the written buffer; decrypt: MAC over the read buffer, before an
   in-place decryption); one-shot encrypt/decrypt are clone -> transition -> op -> finalize over
   the incremental API.
-Not decided: keystream and Poly1305 values (C03, C05)."""
+  shared     every Poly1305 rule of C05 (clamp, radix weights, message limbs, select, limb bounds, digit reduction) and the
+  ChaCha engine's block function as value graphs (C03) are re-evaluated here: the tag is a Poly1305 tag over that keystream.
+Not decided: composition of the verified cipher pieces into the keystream, the tag as a number."""
 from . import aead, C03, C04
 
 EXPLANATION = __doc__
-TECHNIQUE = "MIR call-order dominance, argument wiring by canonical expression, linear-form predicates and slice windows"
+TECHNIQUE = "value-graph equality (abstract interpretation of MIR in a hash-consed bit-level term domain with linear-combination, parity and truth-table normal forms) against specification graphs; interval abstract interpretation over ssa terms with exact carry/remainder relations and trace partitioning on carries (inductive limb-bound invariants, overflow-assert discharge); MIR call-order dominance, argument wiring by canonical expression, linear-form predicates and slice windows"
 
 
 def run(ctx):
